@@ -56,7 +56,8 @@ CHECKS = {
         text='Histories of 1-4 stages (direct or through !include, each with a source safe flag) writing function, scalar-dynamic and data slots '
              'with argument/name overrides, placeholders and deletions, a few taint sources per case and permuted key order. Violation iff executed '
              'code was defined by tainted content, or a tainted marker reached a call argument / a name resolved by evaluated code / a partial; '
-             'a failing build must stem from UnsafeError. One-directional by design (never asserts that safe nodes must run).',
+             'a failing build must stem from UnsafeError. A second, model-free witness over the merged tree: an executed call must not be fed through any node '
+             '(argument, every hop of a reference chain, content of the target) that the implementation itself flags unsafe. One-directional by design (never asserts that safe nodes must run).',
         note='Taint is syntactic (own document + source + including content). executed-clean class in evidence shows the campaign is not vacuous.',
         design='4/C07'),
     'C08': dict(
@@ -76,9 +77,9 @@ CHECKS = {
     'C16': dict(
         technique='property-based differential testing (Hypothesis): list/move model over plain data applied in document order + fold frame, over generated operator histories',
         text='Histories of 1-3 stages with !append/!extend/!prev at unrelated paths (nested, sources inside lists, missing and non-list targets) '
-             'against a plain-data model; every other path must equal the fold. One open known finding (append/extend target addressed through a '
-             'list index) is attributed by a counterfactual re-run without those operators.',
-        note='!prev destinations fresh or scalar; !append in a first document not generated.',
+             'against a plain-data model; every other path must equal the fold. Operators aimed at elements of lists and subtrees moved onto '
+             'existing mappings are part of the domain (the former open finding there is repaired).',
+        note='!append in a first document not generated.',
         design='4/C16'),
     'C17': dict(
         technique='model-based property testing (Hypothesis): generated operation histories applied to node containers and to plain python dict/list, whole-tree invariants after every step',
